@@ -321,6 +321,7 @@ def gen_scenario(rng, profile):
     clock = 0.0
     tid_mode = rng.choice(['seq', 'rand', 'edge'])
     nreq_total = 0
+    seen_reqs = set()
     pipeline = profile.get('pipeline_rate', 0.0)
     dgram = kind in DGRAM_KINDS
     for c in range(nconn):
@@ -362,6 +363,13 @@ def gen_scenario(rng, profile):
                 tag = 'valid' if tag != 'broadcast' else tag
             if pdu is None:
                 continue
+            # requests are pairwise distinct within a scenario (on the wire: unit + PDU, and the tid
+            # does not count because only MBAP carries one): executions are attributed to requests
+            # by content, and identical requests on two connections would be interchangeable
+            key = (None if framing == 'tls' else u, pdu)
+            if key in seen_reqs:
+                continue
+            seen_reqs.add(key)
             if framing == 'rtu' and codec.request_len(pdu) == -1:
                 continue        # an RTU receiver cannot size a frame of unknown function code
             if framing == 'binary' and has_delim(codec.frame('binary', u, pdu)[1:-1]) \
